@@ -97,7 +97,7 @@ func newAsgFact(scale int64) *AsgFact {
 }
 
 func newAsgFact0(pi int64, pf float64) *AsgFact {
-	return &AsgFact{AV: []uint64{44, 45}, MU: map[string]uint64{"a": 52}, T: asgTime(1),I8: 5, I16: 6, I32: 7, I64: 8, I: 9, U8: 10, U16: 11, U32: 12, U64: 13, U: 14, F32: 1.5, F64: 2.5, S: "s", B: true,
+	return &AsgFact{AV: []uint64{44, 45}, MU: map[string]uint64{"a": 52}, T: asgTime(1), I8: 5, I16: 6, I32: 7, I64: 8, I: 9, U8: 10, U16: 11, U32: 12, U64: 13, U: 14, F32: 1.5, F64: 2.5, S: "s", B: true,
 		P: &AsgInner{I64: 20, F64: 3.5, S: "p", I8: 21, U16: 22, B: false, T: asgTime(2)}, PI: &pi, PF: &pf,
 		AI: []int64{40, 41}, AF: []float64{0.25, 5.5}, A8: []int8{42, 1}, AU: []uint16{2, 43}, AS: []string{"e", "f"},
 		MI: map[string]int64{"a": 50, "b": 51}, MF: map[string]float64{"a": 6.5}, MS: map[string]string{"a": "m"}}
@@ -155,7 +155,7 @@ type asgCase struct {
 	Fam   string `json:"fam"`
 	Scale int64  `json:"scale"`
 	Acts  []aact `json:"acts"`
-	Want struct {
+	Want  struct {
 		Err   bool              `json:"err"`
 		Store map[string]avalue `json:"store"`
 	} `json:"want"`
